@@ -132,7 +132,9 @@ func c01upRightAnswer(r *dnsmsg.Msg, id uint16, name string) bool {
 		return false
 	}
 	a, ok := r.Answers[0].(*dnsmsg.A)
-	return ok && a.A == answerFor(wn, 1, 1)
+	// the record as the server sent it, its ttl (300) included: a transport delivers what it decoded (C08: nothing
+	// between the upstream's reply and the cache may lengthen a ttl; the DoH servers send `Age` and `Cache-Control`)
+	return ok && a.A == answerFor(wn, 1, 1) && a.TTL == 300
 }
 
 // ---- the scripted servers
@@ -424,7 +426,8 @@ func (s *c01upSrv) serveH1(raw net.Conn) {
 			continue
 		}
 		raw.SetWriteDeadline(time.Now().Add(2 * time.Second))
-		fmt.Fprintf(raw, "HTTP/1.1 200 OK\r\nContent-Type: application/dns-message\r\nContent-Length: %d\r\n\r\n", len(rep))
+		// as if served by an HTTP cache: the reply is older than its records' ttl
+		fmt.Fprintf(raw, "HTTP/1.1 200 OK\r\nContent-Type: application/dns-message\r\nAge: 86400\r\nCache-Control: max-age=300\r\nContent-Length: %d\r\n\r\n", len(rep))
 		raw.Write(rep)
 	}
 }
@@ -600,7 +603,7 @@ func (s *c01upSrv) serveH2(raw net.Conn, c *tls.Conn) {
 			writeHead(id, 400, nil, true)
 			continue
 		}
-		writeHead(id, 200, [][2]string{{"content-type", "application/dns-message"}, {"content-length", strconv.Itoa(len(rep))}}, false)
+		writeHead(id, 200, [][2]string{{"content-type", "application/dns-message"}, {"age", "86400"}, {"cache-control", "max-age=300"}, {"content-length", strconv.Itoa(len(rep))}}, false)
 		writeData(id, rep, true)
 	}
 }
@@ -721,6 +724,8 @@ func (s *c01upSrv) h3Handler() http.Handler {
 			return
 		}
 		w.Header().Set("Content-Type", "application/dns-message")
+		w.Header().Set("Age", "86400")
+		w.Header().Set("Cache-Control", "max-age=300")
 		w.Write(rep)
 	})
 }
